@@ -205,6 +205,19 @@ def run(run):
     plan = [("raw", 500 if quick else 5000), ("composite", 250 if quick else 3000),
             ("http", 28 if quick else 450), ("cluster", 14 if quick else 260)]
     stats, line_of, mism, samples = {}, {}, [], []
+    # corpus first: recorded interesting cases (re-generated from their ids; scheduling may differ)
+    corpus = os.path.join(C.VERIF, "corpus", "C08", "cases.txt")
+    if os.path.exists(corpus):
+        ids = [l.strip() for l in open(corpus) if l.strip() and not l.startswith("#")]
+        with cf.ThreadPoolExecutor(max_workers=shards) as ex:
+            for cid, res in zip(ids, ex.map(lambda c: rerun_case(c, 1), ids)):
+                line, mm, err = res[0]
+                if err:
+                    run.violation("harness-failed:corpus", {"err": err, "case_id": cid}, "corpus case failed to run", True)
+                    continue
+                line_of[cid] = line
+                mism += mm
+                stats["corpus"] = stats.get("corpus", 0) + 1
     for mode, n in plan:
         with cf.ThreadPoolExecutor(max_workers=shards) as ex:
             futs = [ex.submit(run_batch, mode, n, run.seed, s) for s in range(shards)]
